@@ -9,7 +9,8 @@
 (*   Scn: "fields" | "init" | "can" | "vss" | "strarr"                     *)
 (***************************************************************************)
 EXTENDS HostModel, Json, FiniteSets
-CONSTANTS Scn, XViews, MemHost, Branch
+CONSTANTS BigCounts,    \* element counts of large arrays (block sizes / 8-bit counters of elements and pairs), in the crossed build too
+          Scn, XViews, MemHost, Branch
 VARIABLES st, job
 ASSUME Buf = {1}
 
@@ -19,7 +20,6 @@ AllFF == Fill(8, 255)
 V1 == <<1, 35, 69, 103, 137, 171, 205, 239>>
 ValBytes(s, c, p) == Mat([i \in 1..(s * c) |-> IF p = 1 THEN 255 ELSE ((i - 1) * 37 + 1) % 256])
 Types == (0..11) \cup (128..139)
-BigCounts == {64, 300, 512}          \* block sizes / 8-bit counters of elements and pairs, in the crossed build too
 Jobs ==
   CASE Scn = "fields" -> { [view |-> v, field |-> f, k |-> k, val |-> x] : v \in XViews, f \in UNION { FieldNames(w) : w \in XViews }, k \in {1, 5}, x \in {AllFF, V1} }
     [] Scn = "init"   -> { [view |-> v, k |-> k] : v \in XViews \cap InitViews, k \in {1, 5, 6} }
@@ -38,6 +38,16 @@ CanPayload(l) == Mat([i \in 1..l |-> (17 * i + 3) % 256])
 VssPath(md) == IF md = 1 THEN <<222, 173, 190, 239>> ELSE <<86, 101, 0, 104, 46>>
 VssVal(j) == IF IsVar(j.dt) THEN ValBytes(ElemSize(j.dt), j.c, j.p) ELSE ValBytes(ElemSize(j.dt), 1, j.p)
 
+\* near-valid prior contents in the crossed build too: the write's own result with the two quadlets of a two-quadlet field
+\* exchanged, or one of the field's quadlets byte-reversed (conversion short cuts compare the wrong halves / the wrong order)
+KV == <<1, 35, 69, 103, 137, 171, 205, 239>>
+SwapQ(m, b, q1, q2) == [i \in 1..Len(m) |-> IF i > b + 4*q1 /\ i <= b + 4*q1 + 4 THEN m[i + 4*(q2 - q1)]
+                                           ELSE IF i > b + 4*q2 /\ i <= b + 4*q2 + 4 THEN m[i - 4*(q2 - q1)] ELSE m[i]] \o << >>
+RevQ(m, b, q) == [i \in 1..Len(m) |-> IF i > b + 4*q /\ i <= b + 4*q + 4 THEN m[2*(b + 4*q) + 5 - i] ELSE m[i]] \o << >>
+NearX(r, v, f) ==
+  LET q1 == FStart(v, f) \div 32  q2 == (FStart(v, f) + FW(v, f) - 1) \div 32 IN
+  { RevQ(r, 2, q) : q \in q1..q2 } \cup (IF q2 > q1 THEN { SwapQ(r, 2, q1, q2) } ELSE {})
+
 XR(op, pre, post, ret, extra) == [op |-> op, base |-> 2, pre |-> pre, post |-> post, ret |-> ret] @@ extra
 Next ==
   /\ st.op = "start" /\ UNCHANGED <<mem, hb, out, step, job>>
@@ -45,6 +55,9 @@ Next ==
           LET a == Pat(job.k, 2 + HdrLen[job.view] + 3) IN
           \/ st' = XR("get", a, a, XGet(MemHost, Branch, a, 2, job.view, job.field), [view |-> job.view, field |-> job.field, val |-> Zero64])
           \/ st' = XR("set", a, XSet(MemHost, Branch, a, 2, job.view, job.field, job.val), Zero64, [view |-> job.view, field |-> job.field, val |-> job.val])
+          \/ /\ job.val = V1 /\ job.k = 5
+             /\ \E a2 \in NearX(XSet(MemHost, Branch, a, 2, job.view, job.field, KV), job.view, job.field) :
+                  st' = XR("set", a2, XSet(MemHost, Branch, a2, 2, job.view, job.field, KV), Zero64, [view |-> job.view, field |-> job.field, val |-> KV])
        [] Scn = "init" ->
           LET a == Pat(job.k, 2 + HdrLen[job.view] + 3) IN
           st' = XR("init", a, XInit(MemHost, Branch, a, 2, job.view), Zero64, [view |-> job.view, field |-> "", val |-> Zero64])
